@@ -423,7 +423,11 @@ func (e *Enc) box(v string, t types.Type) string {
 		return v
 	}
 	tok := sortTok(sort)
-	e.declFun("box$"+tok, []string{sort}, sInt)
+	if !e.declared["box$"+tok] {
+		e.declFun("box$"+tok, []string{sort}, sInt)
+		// boxed scalars are not references: they sit at or below 0
+		e.header = append(e.header, "(assert (forall ((v "+sort+")) (! (<= (box$"+tok+" v) 0) :pattern ((box$"+tok+" v)))))")
+	}
 	e.declFun("unbox$"+tok, []string{sInt}, sort)
 	return "(box$" + tok + " " + v + ")"
 }
